@@ -61,10 +61,15 @@ def classify(a, b):
 def make_oracle(tier):
     opts = optsets(tier)
 
+    # three-token paragraphs (thorough tier) run under six option sets (all off, all on, each option alone), shorter ones under all
+    small = [o for o in opts if o in ((False, False, False, 0), (True, True, True, 1), (True, False, False, 2), (False, True, False, 0),
+                                      (False, False, True, 0), (False, True, True, 2))]
+
     def oracle(space, case, text, width, sem):
         viol, tags = [], []
         seen = set()
-        for (c, sq, el, ls) in opts:
+        use = small if (len(opts) > 6 and isinstance(case[1], tuple) and len(case[1]) >= 3) else opts
+        for (c, sq, el, ls) in use:
             kw = dict(width=width, semantic=sem, cleanups=c, smartquotes=sq, ellipses=el, list_spacing=LS[ls])
             o1 = reformat_text(text, **kw)
             if o1 != text:
